@@ -624,6 +624,20 @@ pub fn families(prop: &str, tier: Tier) -> Vec<Cfg> {
             m.dev = 0;
             m.watchdog_calls = 600;
             v.push(m);
+            // a (non-conformant) second PUBREC with a failure code for an exchange already waiting for PUBCOMP
+            // must not free its identifier
+            let mut n = Cfg::base("C07-refusing-pubrec-repeated-during-release");
+            n.props = vec!["C07"];
+            n.ops = vec![OpK::Pub2, OpK::Pub1, OpK::Poll, OpK::Age];
+            n.io = IoMenu::benign();
+            n.broker.dup_pubrec_fail = true;
+            n.broker.pubcomp_last = true;
+            n.max_ops = if q { 6 } else { 7 };
+            n.max_conns = 1;
+            n.max_reqs = 3;
+            n.dev = 1;
+            n.watchdog_calls = 600;
+            v.push(n);
             v
         }
         "C11" => {
